@@ -1500,10 +1500,10 @@ DFANIgetfann(int32 file_id, char *ann, int32 maxlen, int type, int isfirst)
     /* prepare for next call */
     if (FAIL ==
         Hnextread(aid, anntag, DFREF_WILDCARD, DF_CURRENT)) { /* If no more of them, set Next_ ???_ref */
-        if (type == DFAN_LABEL)                               /*    to one higher than current value   */
-            Next_label_ref++;                                 /*    so that next call will fail.       */
+        if (type == DFAN_LABEL)                               /*    to one higher than the ref just    */
+            Next_label_ref = (uint16)(annref + 1);            /*    read so that next call will fail.  */
         else
-            Next_desc_ref++;
+            Next_desc_ref = (uint16)(annref + 1);
     }
     else { /* Otherwise save the next ref */
         if (FAIL == Hinquire(aid, (int32 *)NULL, (uint16 *)NULL, &annref, (int32 *)NULL, (int32 *)NULL,
